@@ -687,6 +687,23 @@ func val3(c *Ctx) {
 			}
 			if len(apps) == 0 {
 				c.Bad(key+":apply", g.Pos(), "the value read from the environment is not applied by Set")
+			} else if _, h, isR := rangeElemHeader(g.Call.Args[0]); isR && h != nil {
+				// a non-empty variable is always applied: from the edges on which the value is known not to be
+				// empty the next variable is not reached around the applications
+				blocked := map[*ssa.BasicBlock]bool{}
+				for _, a := range apps {
+					blocked[a.call.Block()] = true
+				}
+				skipped := false
+				for _, t := range lenTests {
+					bo := t.(*ssa.BinOp)
+					for _, e := range ir.EdgesWhere(fn, bo, bo.Op != token.EQL) {
+						if !blocked[e.To] && ir.Reach(e.To, blocked, nil)[h] {
+							skipped = true
+						}
+					}
+				}
+				c.Check(!skipped, key+":applies-non-empty", g.Pos(), "a variable that is set and not empty is handed to Set", "a non-empty variable can be passed over without being applied (the next one, or the default, would win)")
 			}
 			for _, a := range apps {
 				kind := "single"
